@@ -65,7 +65,7 @@ func (s seqStats) labelsExtra() []string {
 		l = append(l, "visit-ended-by-a-panicking-visitor")
 	}
 	if s.condConsulted {
-		l = append(l, "delete-condition-consulted-only-for-matching-leaves(checked)")
+		l = append(l, "delete-condition-consulted-once-per-matching-leaf-and-for-no-other-value(checked)")
 	}
 	return l
 }
@@ -153,18 +153,23 @@ func runSeq(sc *Scenario, paths, patterns [][]string, observeEvery bool) (st seq
 				before[k] = true
 			}
 			// values of the leaves the path matches, before the delete: the condition is a question about those
-			matchVals := map[int]bool{}
+			// (how many matching leaves hold each value: one call of a delete puts every matching leaf to the
+			// condition once - a caller's condition may count, spend a budget, or note what it let go)
+			matchVals := map[int]int{}
 			for _, k := range m.Query(op.Path) {
-				matchVals[m.leaves[k]] = true
+				matchVals[m.leaves[k]]++
 			}
 			want, wantVals := m.Delete(op.Path, cond)
 			var strayVal interface{}
 			strayed := false
+			consulted := map[int]int{}
 			icond := func(v interface{}) bool {
-				if iv, ok := v.(int); !ok || !matchVals[iv] {
+				if iv, ok := v.(int); !ok || matchVals[iv] == 0 {
 					if !strayed {
 						strayed, strayVal = true, v
 					}
+				} else {
+					consulted[iv]++
 				}
 				return cond == nil || cond(v.(int))
 			}
@@ -207,6 +212,11 @@ func runSeq(sc *Scenario, paths, patterns [][]string, observeEvery bool) (st seq
 				st.condConsulted = true
 				if strayed {
 					return st, fmt.Errorf("op %d %s(%q): the condition was consulted for the value %v, which no leaf matching the path holds (matching values: %v)", i, op.Kind, op.Path, strayVal, matchVals)
+				}
+				for _, v := range bagKeys(matchVals, consulted) {
+					if consulted[v] != matchVals[v] {
+						return st, fmt.Errorf("op %d %s(%q): the condition was consulted %d times for the value %d, which %d of the leaves matching the path hold (one call puts every matching leaf to the condition once; matching values %s, consulted for %s)", i, op.Kind, op.Path, consulted[v], v, matchVals[v], bagString(matchVals), bagString(consulted))
+					}
 				}
 			}
 			if len(want) > 0 && hasGlob(op.Path) {
